@@ -2,11 +2,11 @@ SPECIFICATION Spec
 CONSTANTS
   NSrc = 2
   Reactions = {"Noop", "Suspend", "Panic"}
-  Conds = {{1}, {1, 2}, {2, 3}}
-  TrigValues = {0, 1, 2, 3}
+  Conds = {{1}, {1, 2}}
+  TrigValues = {0, 1, 2}
   SyncModes = {FALSE, TRUE}
   MaxBars = 2
-  MaxTrig = 2
+  MaxTrig = 1
 INVARIANTS
   PropInv
   ImplInv
